@@ -769,23 +769,28 @@ class RSelf(Ret):
 
 
 class RResChild(Ret):
-    """Result<Self::Co, ()> with an integer code (as in the suite's ObjResultReturn)"""
+    """Result<Self::Co, ()> with an integer code (as in the suite's ObjResultReturn), or - plain -
+    Result<Self::Cp, i32> that crosses as CResult"""
     wrapped = True
-    int_result = True
 
-    def __init__(self):
-        self.name = "Co"
-        self.assoc = ("Co", "#[wrap_with_obj(Leaf)]", "Leaf + 'static")
+    def __init__(self, plain=False):
+        self.plain = plain
+        self.int_result = not plain
+        self.name = "Cp" if plain else "Co"
+        self.assoc = (self.name, "#[wrap_with_obj(Leaf)]", "Leaf + 'static")
 
     def ty(self, lt):
-        return " -> Result<Self::Co, ()>"
+        return f" -> Result<Self::{self.name}, {'i32' if self.plain else '()'}>"
 
     def impl_expr(self):
+        if self.plain:
+            return "if h % 3 == 0 { Err((h >> 3) as i32) } else { Ok(LeafImp::new(h)) }"
         return "if h % 3 == 0 { Err(()) } else { Ok(LeafImp::new(h)) }"
 
     def compare(self):
+        key = "C02:ret-value" if self.plain else "C13:int-result"
         return ("match (rw, rr) { (Ok(mut a), Ok(mut b)) => { if probe_leaf(&mut a, seed) != probe_leaf(&mut b, seed) { return Err(Fail::new(\"C01:child\", format!(\"method {}: wrapped Ok(object) answers differently\", mname))); } }"
-                " (Err(()), Err(())) => {} _ => { return Err(Fail::new(\"C13:int-result\", format!(\"method {}: integer-coded Result<object, ()> changed its variant\", mname))); } }")
+                " (Err(a), Err(b)) if a == b => {} (a, b) => { return Err(Fail::new(\"" + key + "\", format!(\"method {}: Result<object, E> arrives as {:?}, the direct call gave {:?}\", mname, a.as_ref().map(|_| ()), b.as_ref().map(|_| ())))); } }")
 
     def nondefault(self):
         return "true"
@@ -833,7 +838,7 @@ def gen_ret(rng, recv_mut, consuming, allow_child=True):
         return RChild("ref", rng.random() < 0.4)
     if k < 0.99 and recv_mut:
         return RChild("mut", rng.random() < 0.4)
-    return RResChild()
+    return RResChild(plain=rng.random() < 0.5)
 
 
 # ---------------------------------------------------------------------------------------------
